@@ -21,7 +21,7 @@ pub fn property() -> Property {
         parts: vec![
             Part {
                 name: "incremental",
-                quick: 3_000,
+                quick: 6_000,
                 thorough: 100_000,
                 single_shard: false, supplementary: false,
                 run: |cfg| run_part(cfg, gen::raw_playout(200), |r| gen::play(r, ClockDomain::Board).to_game(), check_incremental),
@@ -29,7 +29,7 @@ pub fn property() -> Property {
             },
             Part {
                 name: "same_key",
-                quick: 3_000,
+                quick: 6_000,
                 thorough: 100_000,
                 single_shard: false, supplementary: false,
                 run: |cfg| run_part(cfg, gen::raw_playout(120), |r| gen::play(r, ClockDomain::Board).to_game(), check_same_key),
@@ -37,7 +37,7 @@ pub fn property() -> Property {
             },
             Part {
                 name: "single_component",
-                quick: 10_000,
+                quick: 30_000,
                 thorough: 1_000_000,
                 single_shard: false, supplementary: false,
                 run: |cfg| run_part(cfg, gen::raw_pos(80), |r| PosCase { fen: gen::position(r, ClockDomain::Keep).fen() }, check_single_component),
